@@ -601,9 +601,12 @@ def r9b_or_insert_with(src, ctx):
         ct = _ct(src)
         hit = False
         for i in range(len(ct) - 2):
-            if ct[i].t == '.' and ct[i + 1].t == 'or_insert_with' and ct[i + 2].t == '(':
+            if ct[i].t == '.' and ct[i + 1].t in ('or_insert_with', 'or_default') and ct[i + 2].t == '(':
                 c = match_close(ct, i + 2)
-                cp = closure_parts(src, ct, i + 2, c)
+                if ct[i + 1].t == 'or_default':
+                    cp = ('', 'Default::default()')
+                else:
+                    cp = closure_parts(src, ct, i + 2, c)
                 if cp is None or cp[0] != '': raise Unsupported('or_insert_with argument is not a `|| expr` closure')
                 r0 = recv_start(ct, i - 1)
                 recv = src[ct[r0].s:ct[i].s].strip()
